@@ -1,5 +1,7 @@
-"""C06 - E1 obligations on the derivation operations (vf/props/e1_derive.py: unbounded where the code is loop-free, bounded-mode
-VCs where it loops) + bounded relational contracts (E3, vf/e3/derive.py)."""
+"""C06 - E1 proof obligations: SMG.enantiomer and SCRG.enantiomer against the contract `enantiomer` (vf/contracts/derive_ops.py) with side-car loop
+invariants for their four loops (vf/contracts/loop_invariants.py, unbounded), invert() entering through its callee contract, which is itself checked
+against the real body for all six descriptor classes; + bounded relational contracts (E3, vf/e3/derive.py: involution, `== enantiomer iff achiral`
+against the brute-force isomorphism oracle, edited graphs)."""
 import time
 
 from ..core import Report
@@ -22,7 +24,9 @@ def run(tier, seed):
     rep.rule = ("E1: one VC per (class, derivation, symbolic path, clause); E3 scope (DESIGN Appendix B): structured skeleton corpus x element/role/stereo decorations x "
                 "the operation's argument space; distinct_nontrivial = distinct base graphs of the E3 part")
     rep.trusted_base = ["pyvc encoding of CPython semantics + symbolic heap (z3 arrays)", "assumed contract of copy.deepcopy (structural copy, every mutable object fresh, modelled as a copy of the heap into a fresh reference block)", "z3 5.1"]
-    rep.assumptions = ["bounded-mode VCs (kind=bounded without '/bounded/' in the name): loops over symbolic containers unrolled for at most K elements per container (K in vf/props/e1_derive.py:PLAN), everything else unbounded",
+    rep.assumptions = ["loops are verified through side-car invariants (init / generic step / exit, iteration order arbitrary); termination is not proved",
+                       "callees are inlined (copy, set_atom_stereo, set_atom_stereo_change, get_atom_stereo_change, ...) except _StereoMixin.invert, which enters through its contract (result = same class and atoms, parity sign flipped) - that contract is discharged separately on the real body",
+                       "the second half of C06 (g == g.enantiomer() iff a structure-preserving bijection onto the mirror image exists) is NOT within reach of the contracts: it is decided by the bounded E3 part only",
                        "E3: only the enumerated scope is covered", "descriptor objects are immutable values (no public operation mutates one)"]
     rep.explanation = (f"{len(proof)} unbounded proof obligations, {len(e1b)} bounded-mode VCs, plus the bounded relational contract groups listed in coverage.bounded_groups")
     rep.samples = [o.name for o in (proof + e1b)[:: max(1, (len(proof) + len(e1b)) // 8)]][:8]
